@@ -24,6 +24,20 @@ func init() {
 					items = append(items, Item{ID: fmt.Sprintf("read-short/N=%d", N), Run: func(c *Ctx) { c13short(c, N) }})
 				}
 			}
+			// list variants: every element must be treated exactly like the scalar field (own paths and fast paths
+			// of the list helpers)
+			for _, p := range c.primInstances() {
+				p := p
+				if p.Family != "ReadFixedStringListTrimPadding" || (p.TArgs[0] != "uint8" && p.TArgs[0] != "uint16") {
+					continue
+				}
+				for _, N := range []int{3, 8} {
+					for _, side := range []bool{false, true} {
+						N, side := N, side
+						items = append(items, Item{ID: fmt.Sprintf("list-read:%s/N=%d/%s", p.Name, N, map[bool]string{false: "right", true: "left"}[side]), Run: func(c *Ctx) { c13listRead(c, p, N, 2, side) }})
+					}
+				}
+			}
 			for _, N := range []int{1, 3, 8} {
 				N := N
 				items = append(items, Item{ID: fmt.Sprintf("default-write/N=%d", N), Run: func(c *Ctx) { c13default(c, N, true) }})
@@ -289,4 +303,80 @@ func trimSym(w []*Term, pad *Term, left bool) *Bytes {
 	vb := VecBytes(w)
 	b.At = memoAt(func(i *Term) *Term { return vb.At(Add(K, i)) })
 	return b.Norm()
+}
+
+
+// c13listRead: the list reader on count n followed by n arbitrary N-byte images: element i must equal the scalar
+// specification (strip only the maximal pad run on the pad side) of image i.
+func c13listRead(c *Ctx, p primInst, N, n int, leftSide bool) {
+	e := c.e()
+	s := c.w.newState()
+	arr := ArrVar(e.freshName("w"))
+	w := make([]*Term, n*N+1)
+	for i := range w {
+		w[i] = Select(arr, CI(int64(i)))
+	}
+	pad, _ := padArgs(c, s)
+	p8 := Extract(7, 0, pad)
+	pre := prefixBytes(p.TArgs[0], CI(int64(n)), p.LE)
+	in := VecBytes(append(append([]*Term{}, pre...), w...))
+	bufID := s.newObj(&Obj{Kind: kBuffer, B: in, R: CI(0)})
+	steps := func(val func(*Term) uint64) []map[string]any {
+		return []map[string]any{
+			step("op", "newbuf", "buf", "b", "hex", hexOf(evalBytes(in, val))),
+			step("op", "prim", "fn", p.Name, "args", []any{map[string]any{"buf": "b"}, fmt.Sprint(N), fmt.Sprint(val(pad)), leftSide}),
+		}
+	}
+	args := []Value{&Ptr{Obj: bufID}, CI(int64(N)), pad, B(leftSide)}
+	if p.Fn.Signature.Params().Len() != len(args) {
+		panic(bindErr("signature of " + p.Name))
+	}
+	specs := make([]*Bytes, n)
+	for i := range specs {
+		specs[i] = trimSym(w[i*N:(i+1)*N], p8, leftSide)
+	}
+	e.pushCall(s, p.Fn, args, nil)
+	for _, fs := range e.Run(s) {
+		if c.PathProblem(fs, p.Name, func(val func(*Term) uint64, msg string) *Violation {
+			return &Violation{Obligation: "no-panic", Detail: p.Name + " panics: " + msg, Replay: &ReplayReq{Steps: steps(val), Judge: Judge{Kind: "panic"}}}
+		}) {
+			continue
+		}
+		rv := fs.ret.(TupleV)
+		mk := func(what string) func(val func(*Term) uint64) *Violation {
+			return func(val func(*Term) uint64) *Violation {
+				want := make([]any, n)
+				for i := range want {
+					want[i] = map[string]any{"$hex": hexOf(evalBytes(specs[i], val))}
+				}
+				return &Violation{Detail: what, Model: map[string]any{"input_hex": hexOf(evalBytes(in, val)), "N": N, "pad": val(pad), "left": leftSide},
+					Replay: &ReplayReq{Steps: steps(val), Judge: Judge{Kind: "ret_ne", Step: 1, ExpectRet: want}}}
+			}
+		}
+		if !isNilErr(rv[1]) {
+			c.Prove(fs, "succeeds", False, mk(p.Name+" returns an error on full-width images"))
+			continue
+		}
+		res := rv[0].(*SliceV)
+		if !c.Prove(fs, "element-count", Eq(res.Len, CI(int64(n))), mk(p.Name+" returns a different number of elements")) {
+			continue
+		}
+		c.Prove(fs, "consumes-list", Eq(unreadLen(fs.heap[bufID]), CI(1)), mk(p.Name+" does not consume exactly the list"))
+		o := fs.heap[res.Obj]
+		for i := 0; i < n; i++ {
+			sv, ok := o.E[int(res.Off.Val)+i].(*StringV)
+			if !ok {
+				c.Inconclusive("list element is not a string value")
+				continue
+			}
+			got := sv.B
+			if c.Prove(fs, fmt.Sprintf("elem%d:strip-length", i), Eq(got.Len, specs[i].Len), mk(fmt.Sprintf("%s: length of element %d differs from: N minus the maximal run of the pad byte on the pad side", p.Name, i))) {
+				idx := e.boundedVar(fs, "idx", 0, int64(N))
+				c.Prove(fs, fmt.Sprintf("elem%d:strip-content", i), Implies(Lt(idx, specs[i].Len, true), Eq(specs[i].At(idx), got.At(idx))), mk(fmt.Sprintf("%s: element %d differs from its field bytes with only the pad run removed", p.Name, i)))
+			}
+		}
+		c.Witness(fs, "list read", func(val func(*Term) uint64) any {
+			return map[string]any{"fn": p.Name, "input_hex": hexOf(evalBytes(in, val)), "pad": val(pad), "left": leftSide}
+		})
+	}
 }
